@@ -4,6 +4,7 @@ import (
 	"bytes"
 	"context"
 	"dsim/simos"
+	"dsim/simsync"
 	"fmt"
 	deprecatedbucketteer "github.com/rpcpool/yellowstone-faithful/deprecated/bucketteer"
 	"github.com/rpcpool/yellowstone-faithful/deprecated/compactindex"
@@ -335,7 +336,7 @@ func scenarioC10(x *runner.X) {
 		path string
 	}
 	var singles []fault
-	x.Sim(runner.SimOpts{Phase: "identity-faults", Cfg: dsim.Config{MaxSteps: 100000000, MaxSimTime: 1000 * time.Hour, NoTimerRace: true}}, func() {
+	x.Sim(runner.SimOpts{Phase: "identity-faults", Cfg: dsim.Config{MaxSteps: 100000000, MaxSimTime: 1000 * time.Hour, NoTimerRace: true, StmtYields: true}}, func() {
 		s := dsim.Active()
 		rebuilt := filepath.Join(x.TempDir(), "rebuilt")
 		for _, role := range c10roles {
@@ -527,6 +528,29 @@ func scenarioC10(x *runner.X) {
 					}
 				}
 			}
+			// and both kinds of read at the same time, as concurrent requests do: a fetch by CID must
+			// not be satisfied by a read by location that happens to be in flight for the same place
+			var cwg simsync.WaitGroup
+			for _, o := range w1.w.Objects {
+				o := o
+				cwg.Add(2)
+				dsim.Go("by-location", func() {
+					defer cwg.Done()
+					ep.GetNodeByOffsetAndSize(context.Background(), nil, &indexes.OffsetAndSize{Offset: o.Offset, Size: o.SectionLen})
+				})
+				dsim.Go("by-cid", func() {
+					defer cwg.Done()
+					data, err := ep.GetNodeByCid(context.Background(), o.Cid)
+					if err == nil && !bytes.Equal(data, o.Data) {
+						x.Failf("oracle", "with a foreign CAR a CID-addressed fetch returns another object's bytes", "while a read by location of the same place is in flight: %s %s: %d bytes", world.KindName(o.Kind), o.Cid, len(data))
+					}
+				})
+				cwg.Wait()
+				if x.Failed() {
+					break
+				}
+			}
+			cwg.Wait()
 			ep.Close()
 		} else {
 			x.Probe("c10.foreign-car-rejected-at-load")
